@@ -12,7 +12,7 @@ RULE = ("validly signed delegating metadata of type T presented for role R (R !=
         "of the C01/C05 generators also the stripped envelope (only counting signatures kept) and the envelope plus junk, on all three "
         "verifiers; non-trivial = the envelope carries at least one counting signature; distinct by (verifier, envelope variant)")
 
-THEOREMS = ["type_mismatch_never_accepted", "accept_implies_stripped_accept", "junk_cannot_help", "verdict_depends_on_counting_entries"]
+THEOREMS = ["type_mismatch_never_accepted", "accept_implies_stripped_accept", "unsigned_part_cannot_help", "verifySignable_counting_only"]
 
 
 def run(ck: Check) -> None:
